@@ -34,8 +34,12 @@ func main() {
 	seedDir := flag.String("seedpatch", "", "directory of one kept sub-agent seed (patch.diff, meta.json): apply it through an overlay and report whether the property's rules fire")
 	mkinv := flag.Bool("mkinventory", false, "print the function inventory (name -> signature shape) of -repo as JSON")
 	shownorm := flag.Bool("shownorm", false, "print the steps of the normalisation pass on -repo and the rewritten files")
+	overlayJSON := flag.String("overlay", "", "a go-build style overlay file ({\"Replace\": {path: replacement}}): analyse -property on the tree with those files replaced and print SEED CAUGHT/MISSED (checker validation only)")
 	flag.Parse()
 	normDir = filepath.Join(*out, "normalised")
+	if *overlayJSON != "" {
+		os.Exit(runOverlay(*overlayJSON, *prop, *repo, *known))
+	}
 	if *mkinv {
 		inv, err := norm.Inventory(*repo)
 		if err != nil {
@@ -544,4 +548,54 @@ func runReplay(c *props.Check, file, repo, known string) int {
 		fmt.Printf("VIOLATION property=%s replay=%s\n", c.ID, file)
 	}
 	return code
+}
+
+// runOverlay analyses one property on the tree with the files of a go-build overlay
+// replaced (used to try mutants without touching /repo).
+func runOverlay(file, prop, repo, known string) int {
+	c := props.Get(prop)
+	if c == nil {
+		fmt.Println("SEED NA no check for", prop)
+		return 4
+	}
+	b, err := os.ReadFile(file)
+	if err != nil {
+		fmt.Println("SEED NA", err)
+		return 4
+	}
+	var ov struct{ Replace map[string]string }
+	if err := json.Unmarshal(b, &ov); err != nil {
+		fmt.Println("SEED NA", err)
+		return 4
+	}
+	overlay := map[string][]byte{}
+	for k, v := range ov.Replace {
+		src, err := os.ReadFile(v)
+		if err != nil {
+			fmt.Println("SEED NA", err)
+			return 4
+		}
+		overlay[k] = src
+	}
+	normDir = ""
+	r, err := analyse(c, "variant", repo, overlay, 0)
+	if err != nil {
+		fmt.Println("SEED NA the tree does not load:", err)
+		return 4
+	}
+	findings, _ := core.LoadFindings(known)
+	if r.NewViolations(findings) == 0 && len(r.Failures()) == 0 {
+		fmt.Println("SEED MISSED no new diagnostic")
+		return 3
+	}
+	for _, d := range r.NewDiags(findings) {
+		fmt.Println("  ", d.String())
+		break
+	}
+	for _, f := range r.Failures() {
+		fmt.Println("  ", f)
+		break
+	}
+	fmt.Println("SEED CAUGHT")
+	return 0
 }
